@@ -285,6 +285,15 @@ func c18(c *Ctx) {
 					if ic, isCall := ast.Unparen(call.Args[1]).(*ast.CallExpr); isCall {
 						if fn := astx.Callee(fi.Info(), ic); fn != nil && isFunc(fn, "robust", "IdFromRaftIndex") {
 							ok = true
+							// … of the very entry whose data is decoded: <e>.Data and <e>.Index of the same variable
+							if len(ic.Args) == 1 {
+								d, isD := ast.Unparen(call.Args[0]).(*ast.SelectorExpr)
+								x, isX := ast.Unparen(ic.Args[0]).(*ast.SelectorExpr)
+								if isD && isX && d.Sel.Name == "Data" && x.Sel.Name == "Index" && !astx.Same(fi.Info(), d.X, x.X) {
+									r.Fail("C18.F1", fi.Name(), "default id comes from the entry that is decoded", c.P.Pos(call.Pos()),
+										"the data of "+astx.Str(d.X)+" is decoded with the index of "+astx.Str(x.X)+" as default id: entries without an explicit id get the id of a different log entry")
+								}
+							}
 						}
 					}
 				}
